@@ -5,6 +5,8 @@ from . import build, ir2c
 FLAGS = ["--unwinding-assertions", "--pointer-overflow-check", "--undefined-shift-check", "--signed-overflow-check",
          "--drop-unused-functions", "--no-malloc-may-fail", "--object-bits", "12"]
 
+MODELLED_TEMPLATES = ["_ZNSt7__cxx1112basic_stringIcSt11char_traitsIcESaIcEEC2IS3_EEPKcRKS3_"]
+
 class Unit:
     """one generated C translation unit + harness, ready for cbmc"""
     def __init__(self, mod, tag, roots, skip=(), names=None, harness=None, includes=(), defines=None, types=()):
@@ -14,6 +16,9 @@ class Unit:
         g = ir2c.CGen(mod)
         roots_m = [build.find_func(mod, r) if not r.startswith("=") else r[1:] for r in roots]
         skip_m = [build.find_func(mod, r) if not r.startswith("=") else r[1:] for r in skip]
+        # libstdc++ template members that clang instantiates in the TU but that manipulate the real (SSO) layout:
+        # modelled at their own level in models/string.c
+        skip_m += [n for n in MODELLED_TEMPLATES if n in mod.funcs]
         txt, externs = g.generate(roots_m, skip_m, types)
         with open(os.path.join(self.dir, "gen.c"), "w") as f: f.write(txt)
         self.externs = externs
@@ -86,3 +91,9 @@ def classify(res):
         if "unwinding assertion" in d or "model bound" in d or "recursion unwinding" in d: inconcl.append(f)
         else: real.append(f)
     return real, inconcl
+
+def to_int(v, default=0):
+    """integer from a CBMC trace value such as '18ul', '-5', '60 (00111100)'"""
+    if v is None: return default
+    m = re.match(r"\s*(-?\d+)", str(v))
+    return int(m.group(1)) if m else default
